@@ -77,6 +77,7 @@ struct SimThread {
     uint64_t spin_epoch;
     int64_t prio;
     int slice;
+    int slice_len;
     pthread_t real;
     void* (*fn)(void*);
     void* arg;
@@ -169,7 +170,8 @@ static size_t g_nrec = 0, g_caprec = 0;
 
 static void rec_add(uint32_t tid, uint32_t kind, uint64_t n, uint64_t arg)
 {
-    if (!g_cfg.record) return;
+    // the quiescence phase is always scheduled by the fair round-robin, never by a script
+    if (!g_cfg.record || g_quiesced) return;
     if (!g_rec)
     {
         // far away from everything else, so that recording does not move any other mapping
@@ -439,7 +441,7 @@ static SimThread* choose_other(SimThread* me, SimThread** dflt)
     // prefer threads that are not known to be spinning, but not always
     bool fair = g_quiesced || g_cfg.strategy == SIM_RR || g_cfg.strategy == SIM_SCRIPT;
     bool avoid = !fair && (rnd32() & 7) != 0;
-    if (g_cfg.strategy == SIM_SCRIPT) avoid = true;
+    if (g_cfg.strategy == SIM_SCRIPT) avoid = !g_quiesced;
     int n = collect(me, cand, avoid);
     if (n == 0 && avoid) n = collect(me, cand, false);
     if (n == 0)
@@ -448,7 +450,7 @@ static SimThread* choose_other(SimThread* me, SimThread** dflt)
         return nullptr;
     }
     *dflt = cand[0];
-    if (g_cfg.strategy == SIM_SCRIPT) return cand[0];
+    if (g_cfg.strategy == SIM_SCRIPT && !g_quiesced) return cand[0];
     if (g_quiesced || g_cfg.strategy == SIM_RR)
     {
         // next in cyclic id order after me
@@ -504,7 +506,7 @@ static void block(SimThread* me, int kind)
         SimThread* next = choose_other(me, &dflt);
         if (next)
         {
-            if (g_cfg.strategy == SIM_SCRIPT)
+            if (g_cfg.strategy == SIM_SCRIPT && !g_quiesced)
             {
                 const sim_decision* d = script_find(me->id, me->npts, SIM_D_SWITCH);
                 if (d && d->arg < (uint64_t) g_nthr && g_thr[d->arg].st == T_RUNNABLE &&
@@ -580,7 +582,7 @@ static void point(SimThread* me, int kind, const void* addr, uintptr_t pc)
         if (g_cfg.strategy == SIM_PCT) me->prio = --g_lowprio;
     }
 
-    if (g_cfg.strategy == SIM_SCRIPT)
+    if (g_cfg.strategy == SIM_SCRIPT && !g_quiesced)
     {
         if (g_ncondwait > 0)
         {
@@ -652,7 +654,13 @@ static void point(SimThread* me, int kind, const void* addr, uintptr_t pc)
         want = true;
     else if (g_quiesced || g_cfg.strategy == SIM_RR)
     {
-        if (++me->slice >= g_rr_quantum) want = true;
+        // jittered quantum: a fixed quantum can resonate with a periodic loop of another thread
+        // (always preempting it inside the same critical section) and starve a third one
+        if (++me->slice >= me->slice_len)
+        {
+            want = true;
+            me->slice_len = g_rr_quantum / 2 + 1 + (int) rnd_below((uint64_t) g_rr_quantum);
+        }
     }
     else
     {
@@ -859,20 +867,6 @@ SIM_EXPORT void sim_dump_trace(int fd, int last_n)
         if (write(fd, buf, (size_t) n) < 0) break;
     }
 }
-SIM_EXPORT size_t sim_describe(char* buf, size_t cap)
-{
-    static const char* names[] = {
-        "unused", "runnable", "mutex", "cond", "join", "once", "sleep", "stall", "finished"};
-    size_t off = 0;
-    for (int i = 0; i < g_nthr && off + 96 < cap; i++)
-    {
-        SimThread* t = &g_thr[i];
-        off += snprintf(buf + off, cap - off, "T%d:%s%s%s@%p ", t->id, names[t->st],
-            t->has_deadline ? "+dl" : "", is_stale_spinner(t) ? "+spin" : "", t->wobj);
-    }
-    return off;
-}
-
 // ------------------------------------------------------------------------------------------------
 // atomics (__tsan_atomic*) — schedule point, then the real operation (seq_cst)
 // ------------------------------------------------------------------------------------------------
@@ -1334,7 +1328,7 @@ SIM_EXPORT int pthread_mutex_trylock(pthread_mutex_t* m)
     {
         bool fail = false;
         if (g_cfg.strategy == SIM_SCRIPT)
-            fail = script_find(me->id, me->npts, SIM_D_TRYFAIL) != nullptr;
+            fail = !g_quiesced && script_find(me->id, me->npts, SIM_D_TRYFAIL) != nullptr;
         else if (!g_quiesced && g_cfg.p_tryfail && rnd32() < g_cfg.p_tryfail)
             fail = true;
         if (fail)
@@ -1497,7 +1491,7 @@ SIM_EXPORT int pthread_cond_signal(pthread_cond_t* c)
     if (n)
     {
         SimThread* v = oldest;
-        if (g_cfg.strategy == SIM_SCRIPT)
+        if (g_cfg.strategy == SIM_SCRIPT && !g_quiesced)
         {
             const sim_decision* d = script_find(me->id, me->npts, SIM_D_SIGPICK);
             if (d)
@@ -1682,7 +1676,7 @@ static void thread_finish(SimThread* me)
         SimThread* next = choose_other(me, &dflt);
         if (next)
         {
-            if (g_cfg.strategy == SIM_SCRIPT)
+            if (g_cfg.strategy == SIM_SCRIPT && !g_quiesced)
             {
                 const sim_decision* d = script_find(me->id, me->npts, SIM_D_SWITCH);
                 if (d && d->arg < (uint64_t) g_nthr && g_thr[d->arg].st == T_RUNNABLE)
@@ -1903,7 +1897,7 @@ static uint64_t clock_read(SimThread* me)
     advance_time(g_cfg.time_quantum_ns);
     if (g_cfg.strategy == SIM_SCRIPT)
     {
-        const sim_decision* d = script_find(me->id, me->npts, SIM_D_CLOCKJUMP);
+        const sim_decision* d = g_quiesced ? nullptr : script_find(me->id, me->npts, SIM_D_CLOCKJUMP);
         if (d)
         {
             g_st.fault_counts[SIM_D_CLOCKJUMP]++;
@@ -2003,4 +1997,26 @@ SIM_EXPORT int pthread_setaffinity_np(pthread_t th, size_t sz, const cpu_set_t* 
     if (g_on) return 0;
     if (!real_pthread_setaffinity_np) resolve_all();
     return real_pthread_setaffinity_np(th, sz, set);
+}
+
+// ------------------------------------------------------------------------------------------------
+SIM_EXPORT size_t sim_describe(char* buf, size_t cap)
+{
+    static const char* names[] = {
+        "unused", "runnable", "mutex", "cond", "join", "once", "sleep", "stall", "finished"};
+    size_t off = 0;
+    for (int i = 0; i < g_nthr && off + 160 < cap; i++)
+    {
+        SimThread* t = &g_thr[i];
+        off += snprintf(buf + off, cap - off, "T%d:%s%s%s ", t->id, names[t->st],
+            t->has_deadline ? "+dl" : "", is_stale_spinner(t) ? "+spin" : "");
+        if (t->st == T_MUTEX && t->wobj)
+        {
+            MutexEnt* e = mutex_ent(t->wobj);
+            off += snprintf(buf + off, cap - off, "(mutex %p owner T%d count %d) ", t->wobj, e->owner, e->count);
+        }
+        else if (t->st == T_COND)
+            off += snprintf(buf + off, cap - off, "(cond %p) ", t->wobj);
+    }
+    return off;
 }
